@@ -30,22 +30,22 @@ func lineBreaks(src []byte) int {
 	return n
 }
 
-// errLine extracts N from "<chunk>:N: msg"; -1 when absent.
+// errLine extracts N from a message of the form "c:N: text" (the chunk is loaded under the name "c"); -1 when
+// the message does not start with that position prefix.
 func errLine(msg string) int {
-	for i := 0; i+1 < len(msg); i++ {
-		if msg[i] == ':' && msg[i+1] >= '0' && msg[i+1] <= '9' {
-			n := 0
-			j := i + 1
-			for j < len(msg) && msg[j] >= '0' && msg[j] <= '9' {
-				n = n*10 + int(msg[j]-'0')
-				j++
-			}
-			if j < len(msg) && msg[j] == ':' {
-				return n
-			}
-		}
+	if len(msg) < 4 || msg[0] != 'c' || msg[1] != ':' {
+		return -1
 	}
-	return -1
+	n := 0
+	j := 2
+	for j < len(msg) && msg[j] >= '0' && msg[j] <= '9' {
+		n = n*10 + int(msg[j]-'0')
+		j++
+	}
+	if j == 2 || j >= len(msg) || msg[j] != ':' {
+		return -1
+	}
+	return n
 }
 
 type c17tmpl struct {
@@ -76,11 +76,16 @@ var c17Templates = []c17tmpl{
 	{[]string{"local o", "o:m(", ")"}, 1, 2, "error"},
 	{[]string{"local t", "local n = #", "t"}, 1, 2, "error"},
 	{[]string{"local t = {}", "local n = -", "t"}, 1, 2, "error"},
+	// errors raised by a host function that was called by another host function: the position is that of the
+	// Lua statement that started the chain
+	{[]string{"local a = 1", "local ok, e = pcall(error, 'boom') error(e,", "0)"}, 1, 2, "error"},
+	{[]string{"local a = 1", "local ok, e = pcall(string.rep) error(e,", "0)"}, 1, 2, "error"},
+	{[]string{"local function f() error('lvl2', 2) end", "local ok, e = pcall(pcall, f) local ok2, e2 = pcall(f) error(e2,", "0)"}, 1, 2, "error"},
 	// currentline inside a nested function called from a later line
 	{[]string{"local function f() return debug.getinfo(2, 'l').currentline end", "return (f(", "))"}, 1, 2, "value"},
 }
 
-//verif:harness prop=C17 tier=quick qparams=glen:2 tparams=glen:3 bounds="18 templates, 2 gaps of glen symbolic bytes (2 quick / 3 thorough) each drawn from {blank, tab, LF, CR}: every line layout incl. CRLF/LFCR pairs"
+//verif:harness prop=C17 tier=quick qparams=glen:2 tparams=glen:3 bounds="21 templates, 2 gaps of glen symbolic bytes (2 quick / 3 thorough) each drawn from {blank, tab, LF, CR}: every line layout incl. CRLF/LFCR pairs"
 func H_C17_lines() {
 	t := c17Templates[VChoice(len(c17Templates))]
 	glen := VParam("glen", 2)
@@ -107,7 +112,12 @@ func H_C17_lines() {
 	var got int
 	if t.want == "error" {
 		VAssert(err != nil, "lines: template fails as intended: "+t.parts[1])
-		got = errLine(err.Error())
+		// the error value itself (err.Error() appends a stack traceback, which names lines of its own)
+		msg := err.Error()
+		if ae, ok := err.(*ApiError); ok && ae.Object != nil {
+			msg = ae.Object.String()
+		}
+		got = errLine(msg)
 	} else {
 		VAssert(err == nil, "lines: template runs: "+t.parts[1])
 		n, _ := L.Get(-1).(LNumber)
@@ -226,4 +236,95 @@ func H_C17_scopes() {
 		VAssert(L.Get(1) == LNil || (isStr && len(nm) > 0 && nm[0] == '('), "scopes: beyond the variables in scope there is nothing (or a temporary): "+t.src)
 	}
 	VReach("end")
+}
+
+// C17.upvalues — debug.getupvalue enumerates the upvalues of a closure in the order of their first occurrence
+// in its body (lparser.c indexupvalue: an upvalue gets its index when it is first named, also as an assignment
+// target), with their current values; setupvalue changes exactly that variable.
+type c17up struct {
+	src   string // defines f and the locals; the harness appends the query
+	names []string
+	vals  []string // "x", "y" or a literal digit
+}
+
+var c17Ups = []c17up{
+	{`local a, b = x, y; local function f() return a + b end`, []string{"a", "b"}, []string{"x", "y"}},
+	{`local a, b = x, y; local function f() return b + a end`, []string{"b", "a"}, []string{"y", "x"}},
+	{`local a, b = x, y; local function f() a = b end`, []string{"a", "b"}, []string{"x", "y"}},
+	{`local a, b, c = x, y, 3; local function f() a, b, c = 1, 2, 3 end`, []string{"a", "b", "c"}, []string{"x", "y", "3"}},
+	{`local a, b, c = x, y, 3; local function f() c = a; b = c end`, []string{"c", "a", "b"}, []string{"3", "x", "y"}},
+	{`local a, b = x, y; local function f() local function g() return b end; return a, g end`, []string{"b", "a"}, []string{"y", "x"}},
+	{`local a, b = x, y; local function f() a.k = b end`, []string{"a", "b"}, []string{"x", "y"}},
+}
+
+//verif:harness prop=C17 tier=quick bounds="7 closures (reads, assignments as first use, multiple assignment, nested capture, indexed store); index n in 1..4; getupvalue name and value, setupvalue effect; 2 symbolic float64 values"
+func H_C17_upvalues() {
+	L := newL(Options{}, BaseLibName, DebugLibName)
+	x, y := VFloat("x"), VFloat("y")
+	L.G.Global.RawSetString("x", LNumber(x))
+	L.G.Global.RawSetString("y", LNumber(y))
+	n := 1 + VChoice(4)
+	L.G.Global.RawSetString("n", LNumber(n))
+	t := c17Ups[VChoice(len(c17Ups))]
+	val := func(s string) LValue {
+		switch s {
+		case "x":
+			return LNumber(x)
+		case "y":
+			return LNumber(y)
+		}
+		return LNumber(float64(int(s[0] - '0')))
+	}
+	if VChoice(2) == 0 {
+		err := loadRun(L, t.src+"; return debug.getupvalue(f, n)", 2)
+		VAssert(err == nil, "upvalues: runs: "+t.src)
+		if n <= len(t.names) {
+			VAssert(L.Get(1) == LString(t.names[n-1]), "upvalues: the n-th upvalue in order of first occurrence: "+t.src)
+			VAssert(sameValue(L.Get(2), val(t.vals[n-1])), "upvalues: its current value: "+t.src)
+		} else {
+			VAssert(L.Get(1) == LNil, "upvalues: beyond the upvalues there is nothing: "+t.src)
+		}
+	} else {
+		if len(t.names) < 2 {
+			return
+		}
+		// setupvalue(f, n, 77) changes exactly the named variable (observed through fresh reads of the locals)
+		ret := "; local nm = debug.setupvalue(f, n, 77); return nm"
+		for _, nm := range uniq(t.names) {
+			ret += ", " + nm
+		}
+		u := uniq(t.names)
+		err := loadRun(L, t.src+ret, 1+len(u))
+		VAssert(err == nil, "upvalues: setupvalue runs: "+t.src)
+		if n <= len(t.names) {
+			VAssert(L.Get(1) == LString(t.names[n-1]), "upvalues: setupvalue returns the name of the n-th upvalue: "+t.src)
+			for i, nm := range u {
+				if nm == t.names[n-1] {
+					VAssert(L.Get(2+i) == LNumber(77), "upvalues: setupvalue changes the named variable: "+t.src)
+				} else {
+					VAssert(sameValue(L.Get(2+i), val(t.vals[indexOf(t.names, nm)])), "upvalues: setupvalue leaves every other variable alone: "+t.src)
+				}
+			}
+		}
+	}
+	VReach("end")
+}
+
+func uniq(l []string) []string {
+	var out []string
+	for _, s := range l {
+		if indexOf(out, s) < 0 {
+			out = append(out, s)
+		}
+	}
+	return out
+}
+
+func indexOf(l []string, s string) int {
+	for i, v := range l {
+		if v == s {
+			return i
+		}
+	}
+	return -1
 }
